@@ -6,7 +6,7 @@ use crate::gen::{GClaims, GDoc};
 use crate::mockhost::Mock;
 use crate::ns::{self, Helpers};
 use crate::rawhttp::{self, MsgReader, RawResponse, ReadError};
-use azure_proxy_agent::key_keeper::key::{AuthorizationItem, Key};
+use azure_proxy_agent::key_keeper::key::Key;
 use azure_proxy_agent::proxy::proxy_server::ProxyServer;
 use azure_proxy_agent::redirector::verif_hooks;
 use azure_proxy_agent::shared_state::SharedState;
@@ -143,13 +143,23 @@ impl Rig {
         Ok(Rig { rt, shared, mock, helpers })
     }
 
+    /// Install the three rule sets the way the key keeper does: they travel in ONE version-2.0 status document, go through the
+    /// agent's serde types, and the items handed to the setters are what `KeyStatus::get_*_rules()` return for that document.
     pub fn set_rules(&self, ws: Option<&GDoc>, imds: Option<&GDoc>, hostga: Option<&GDoc>) {
-        let item = |d: Option<&GDoc>| -> Option<AuthorizationItem> { d.map(crate::agent::to_item) };
+        let mut rules = serde_json::Map::new();
+        for (name, d) in [("wireserver", ws), ("imds", imds), ("hostga", hostga)] {
+            if let Some(d) = d {
+                rules.insert(name.to_string(), d.to_json());
+            }
+        }
+        let doc = serde_json::json!({"authorizationScheme": "Azure-HMAC-SHA256", "keyDeliveryMethod": "http", "keyGuid": null, "requiredClaimsHeaderPairs": ["isRoot"],
+            "secureChannelEnabled": true, "version": "2.0", "authorizationRules": rules});
+        let status: azure_proxy_agent::key_keeper::key::KeyStatus = serde_json::from_value(doc).expect("generated status document must deserialize");
         let ks = self.shared.get_key_keeper_shared_state();
         self.rt.block_on(async {
-            ks.set_wireserver_rules(item(ws)).await.expect("set_wireserver_rules");
-            ks.set_imds_rules(item(imds)).await.expect("set_imds_rules");
-            ks.set_hostga_rules(item(hostga)).await.expect("set_hostga_rules");
+            ks.set_wireserver_rules(status.get_wireserver_rules()).await.expect("set_wireserver_rules");
+            ks.set_imds_rules(status.get_imds_rules()).await.expect("set_imds_rules");
+            ks.set_hostga_rules(status.get_hostga_rules()).await.expect("set_hostga_rules");
         });
     }
 
